@@ -40,3 +40,20 @@ REG.contract('C03', B, 'Backend.escape_extra_args', params={'args': Seq(Str)},
                             locals={'extra_args': List(Str)})},
              floor=5, dropped=['decorator staticmethod'],
              note='same count, same order; backslashes doubled exactly in -D//D arguments')
+
+# ---- response files: the quoting function applied to the arguments of a build statement (NinjaBuildElement.write) and the
+# one applied to the rule's rspfile_content (NinjaRule.write) are chosen at two sites that must agree on the reader's syntax:
+# MSVC and TASKING response files are read cmd-style, everything else gcc-style (libiberty buildargv)
+from pyvc.api import Enum
+RSP = Enum('RSPFileSyntax', {k: f'mesonbuild.linkers.base:RSPFileSyntax.{k}' for k in ('MSVC', 'GCC', 'TASKING')})
+RuleS = Struct('NinjaRule', 'mesonbuild.backend.ninjabackend:NinjaRule', rspfile_quote_style=RSP)
+ElemS = Struct('NinjaBuildElement', 'mesonbuild.backend.ninjabackend:NinjaBuildElement', rule=RuleS)
+CMDSTYLE = "(STYLE is RSPFileSyntax.MSVC or STYLE is RSPFileSyntax.TASKING)"
+REG.contract('C03', N, 'NinjaBuildElement.write', variant='rsp-quoter', region=('If', 'qf = gcc_rsp_quote'), params={'self': ElemS, 'use_rspfile': Const(True)},
+             ensures=["implies(" + CMDSTYLE.replace('STYLE', 'self.rule.rspfile_quote_style') + ", final('qf') is cmd_quote)",
+                      "implies(not " + CMDSTYLE.replace('STYLE', 'self.rule.rspfile_quote_style') + ", final('qf') is gcc_rsp_quote)"],
+             floor=2, note='arguments of a build statement that go through a response file are quoted for the syntax of the reader of that file')
+REG.contract('C03', N, 'NinjaRule.write', variant='rsp-quoter', region=('If', 'rspfile_quote_func = gcc_rsp_quote'), params={'self': RuleS, 'rspfile_args': Const(())},
+             ensures=["implies(" + CMDSTYLE.replace('STYLE', 'self.rspfile_quote_style') + ", final('rspfile_quote_func') is cmd_quote)",
+                      "implies(not " + CMDSTYLE.replace('STYLE', 'self.rspfile_quote_style') + ", final('rspfile_quote_func') is gcc_rsp_quote)"],
+             floor=2, note='the rspfile_content of the rule is quoted by the same table')
